@@ -105,10 +105,7 @@ class Pool:
         for w in range(self.n):
             feed(w)
         while remaining:
-            try:
-                i, ok, val, w = self.outq.get(timeout=600)
-            except Exception:
-                raise HarnessError("worker pool: no result for 600 s")
+            i, ok, val, w = self._get(600)
             if not ok:
                 raise HarnessError(f"worker failure on item {i}: {val}")
             results[i] = val
@@ -142,10 +139,7 @@ class Pool:
         for w in range(self.n):
             feed(w)
         while remaining:
-            try:
-                i, ok, val, w = self.outq.get(timeout=900)
-            except Exception:
-                raise HarnessError("worker pool: no result for 900 s")
+            i, ok, val, w = self._get(900)
             if not ok:
                 raise HarnessError(f"worker failure on item {i}: {val}")
             results[i] = val
@@ -154,6 +148,20 @@ class Pool:
             remaining -= 1
             feed(w)
         return results
+
+    def _get(self, limit):
+        import queue
+        import time
+        t0 = time.time()
+        while True:
+            try:
+                return self.outq.get(timeout=2)
+            except queue.Empty:
+                dead = [i for i, p in enumerate(self.procs) if not p.is_alive()]
+                if dead:
+                    raise HarnessError(f"worker(s) {dead} died (exit codes {[self.procs[i].exitcode for i in dead]})")
+                if time.time() - t0 > limit:
+                    raise HarnessError(f"worker pool: no result for {limit} s")
 
     def close(self):
         for i in range(self.n):
